@@ -560,7 +560,7 @@ SITES = {
     "internal/mapper/generator.go:103": "DToNeedsType", "internal/mapper/generator.go:108": "DToAlign",
     "internal/mapper/generator.go:124": "DDestDir", "internal/mapper/generator.go:174": "DMapSrcNotExists",
     "internal/mapper/generator.go:179": "DMapDestNotExists",
-    "internal/mapper/ctor.go:152": "not covered: constructor parameter of a type without zero value text (type parameter)",
+    "internal/mapper/ctor.go:152": "constructor parameter of type-parameter type (ctor:generic cases; not modelled: Pb only)",
     "internal/mapper/manual.go:44": "DMapPtrRecv", "internal/mapper/manual.go:97": "DMapWriteParam",
     "internal/mapper/manual.go:103": "DMapDupWrite", "internal/mapper/manual.go:111": "DMapReadParam",
     "internal/mapper/manual.go:118": "DMapDupRead",
@@ -978,6 +978,10 @@ def ctor_cases():
                 # a constructor that is found but odd (generic, variadic, grouped) goes into the generated call: the text is the oracle's
                 if name in ("generic", "variadic", "grouped", "blank", "unnamed", "noparams", "good"):
                     c.uncertain = ["T"]
+                if name == "generic":
+                    # makeCtorMatch: no zero-value text for a parameter of type-parameter type -> `not supported`, exit 1
+                    # (mapper/ctor.go:152); field matching is not transcribed: only the property itself is evaluated
+                    c.opaque = "generic constructor NewT[X any](id X): makeCtorMatch is not modelled"
                 out.append(c)
     # the name declared twice: a func without result next to a proper one
     c = _case("map", list(MAP_ARGS), [_file("s.go", [struct, marker, ("func", F.FDecl("NewT", None, [], None, {"text": ""})),
@@ -1195,6 +1199,12 @@ def coverage_suite():
     add("DRestExtract", _case("rest", ["rest", "-type=Client"], fs, extra={"q7.broken.go": ("dangling",)}))
     add("DMapSrcNotExists", _case("map", ["map", "-path=../dest", "-type=Nope"], _map_src(), DEST_T))
     add("DMapDestNotExists", _case("map", ["map", "-path=../dest", "-type=T", "-to=Gone"], _map_src(), DEST_T))
+    # several types of which one has no destination: nothing may be written for the others either
+    two = _map_src([_struct("U", [F.Field(["ID"], F.tid("int"))])])
+    add("DMapDestNotExists", _case("map", ["map", "-path=../dest", "-type=T,U"], two, DEST_T))
+    add("DMapDestNotExists", _case("map", ["map", "-path=../dest", "-type=U,T", "-sep"], _map_src([_struct("U", [F.Field(["ID"], F.tid("int"))])]), DEST_T))
+    add("DMapDestNotExists", _case("map", ["map", "-path=../dest", "-type=T,U", "-to=T,Gone"], _map_src([_struct("U", [F.Field(["ID"], F.tid("int"))])]),
+                                   [_file("d.go", [_struct("T", [F.Field(["ID"], F.tid("int"))]), _struct("U", [F.Field(["ID"], F.tid("int"))])], pkg="dest", imports=())]))
     add("DMapPtrRecv", _case("map", MAP_ARGS, _map_src([_fn("toDest", [F.Param(["t"], F.tid("T"))], [F.Param(["d"], F.tstar(dT))])]), DEST_T))
     add("DMapWriteParam", _case("map", MAP_ARGS, _map_src([_fn("toDest", RECV_PT, [F.Param(["d"], dT)])]), DEST_T))
     add("DMapDupWrite", _case("map", MAP_ARGS, _map_src([_fn("toDest", RECV_PT, [F.Param(["d"], F.tstar(dT))]),
